@@ -150,6 +150,8 @@ def run_scope(acc: Acc, engine, oracle: Oracle, n: int, v: int, scope: str, comb
         fl.settings.decimals = d
         try:
             text = exporter.to_string_from_scope(engine, v, getattr(fl.FldExporter.ScopeOfValues, scope))
+            if v <= 12 and exporter.to_string_from_scope(engine, v, getattr(fl.FldExporter.ScopeOfValues, scope)) != text:
+                acc.violate("not-repeatable", {}, case, text[:120], "differs", f"{case}: exporting twice gives different datasets")
         finally:
             fl.settings.decimals = 3
         want = expected_text(engine, rows, outs, headers, inputs, outputs, sep, d)
